@@ -140,6 +140,7 @@ type Run struct {
 	scaledQueries int
 	scaledHits    int
 	preemptBudget int
+	preemptLocks  bool // preemption points also before mutex acquisitions
 	assertions    int
 	assertQueries int
 	crossChecked  int
